@@ -358,7 +358,7 @@ func (g *gen) endpointAuth() map[string]any {
 	case "api_key":
 		return map[string]any{"type": fixed("api_key"), "config": map[string]any{
 			"in": g.req(g.enum("header", "cookie", "query")), "name": g.req(g.str("X-Api-Key", "api_key", "token")),
-			"value": g.req(g.str("VerySecret!", "super duper secret", "abc123"))}}
+			"value": g.req(g.str(append([]string{"VerySecret!", "super duper secret"}, tricky...)...))}}
 	default:
 		return map[string]any{"type": fixed("oauth2_client_credentials"), "config": g.clientCredentials()}
 	}
@@ -427,7 +427,8 @@ func (g *gen) authenticator() map[string]any {
 			m["config"] = map[string]any{"subject": g.str("anon", "guest", "nobody")}
 		}
 	case "basic_auth":
-		c := map[string]any{"user_id": g.req(g.word()), "password": g.req(g.str("baz", "pw", "VerySecure!"))}
+		// string options whose text YAML would read as another type: quoted alike in file and environment
+		c := map[string]any{"user_id": g.req(g.word()), "password": g.req(g.str(tricky...))}
 		if g.p(0.5) {
 			c["allow_fallback_on_error"] = g.boolean()
 		}
